@@ -77,6 +77,32 @@ CHECKS = {
         "non-monotonic shape terms, Constant, Linear and Function must refuse.",
         note="x-space 1e-9 of the span and round trip 1e-9*h, with conditioning-aware terms for Arc; finiteness only required where the real inverse is below 1e300",
     ),
+    "C01": dict(
+        level="exploration",
+        technique="runtime monitor on Engine.process recomputing the pipeline with a wiring model (own rule-text parser, evaluation order, contribution lists, aggregation fold, cascade) over library leaves; bit-exact comparison of rule degrees, fuzzy outputs and values; element-wise monitors on Activated/Aggregated.membership",
+        text="After every observed process() on a ready engine the rule degrees, every fuzzy output (term identity, degree, implication, "
+        "order) and every output value are compared bit for bit with an independently wired pipeline; generated engines cover all "
+        "operators, defuzzifiers, activation methods, flags, weights, hedges, nested antecedents and output variables in antecedents, over "
+        "scalar rows and batches including breakpoints, +-inf and NaN; the shipped examples run under the same monitor.",
+        note="leaves are the library's (judged by C03/C04/C05/C09/C10); blocks with a non-General method and an output variable in an antecedent, duplicate term names, Function terms over output values and not-ready engines are out of domain",
+    ),
+    "C06": dict(
+        level="exploration",
+        technique="runtime monitors on Rule.activate_with and Antecedent.load compared with the generator's expression tree (ground truth of the printed text); own recursive-descent parser as fall-back; wrong-reading discriminators for non-triviality",
+        text="For every observed activation the degree must equal weight x the value of the expression tree the text was printed from, and the "
+        "loaded tree's postfix must equal the tree's; texts vary parentheses and spacing; all 63 operator pairs are cycled; a case counts as "
+        "non-trivial only if a wrong reading (swapped precedence, right associativity, hedge order) would give a different number.",
+        note="leaves are the library's (C03/C04/C05); bit-exact; `any` generated last and never after `not`",
+    ),
+    "C07": dict(
+        level="exploration",
+        technique="runtime monitor on Rule.trigger (before/after snapshots of the concluded fuzzy outputs, exactly-once/conservation check against the consequent) + Activated.degree setter hook + permutation metamorphic re-runs",
+        text="For every observed trigger the terms appended to each fuzzy output must be exactly one per conclusion on an enabled variable, "
+        "carrying the concluded term, the block's implication and nan_to_num(own hedges(rule degree)); nothing for disabled rules or "
+        "variables; all permutations of the conclusions must contribute the same multisets. Degrees are forced through a stub including "
+        "0, 1, NaN, +-inf and batches.",
+        note="hedge.hedge is the library's (C05); hedges applied nearest-the-term first; bit-exact",
+    ),
 }
 NOT_APPLICABLE = [
     {"property_id": p, "reason": "check not built yet in this session (work in progress; see DESIGN.md §4)"} for p in ALL if p not in CHECKS
